@@ -105,6 +105,23 @@ macro_rules! universe_trait {
 universe_trait!(U0, U0Mock, 0u8, real_u0_a, real_u0_d);
 universe_trait!(U1, U1Mock, 4u8, real_u1_a, real_u1_d);
 
+/// by-value receiver with a provided method (C11/C15): ids 8 (`r`, required) and 9 (`consume`, provided)
+#[unimock(api=U2Mock)]
+pub trait U2 {
+    fn r(&self, x: u8) -> i64;
+    fn consume(self, x: u8) -> i64
+    where
+        Self: Sized,
+    {
+        log(format!("dflt:9:{}", x));
+        let v = self.r(x);
+        if x == 6 {
+            user_panic()
+        }
+        4000 + v
+    }
+}
+
 pub const N_METHODS: u8 = 8;
 
 pub fn sibling(mid: u8, k: u8) -> u8 {
@@ -122,6 +139,7 @@ pub fn call_method(u: &Unimock, mid: u8, x: u8) -> i64 {
         5 => U1::b(u, x),
         6 => U1::c(u, x),
         7 => U1::d(u, x),
+        8 => U2::r(u, x),
         _ => panic!("bad method id"),
     }
 }
@@ -157,6 +175,7 @@ macro_rules! with_mock_fn {
             5 => { let $F = $crate::universe::U1Mock::b; $body }
             6 => { let $F = $crate::universe::U1Mock::c; $body }
             7 => { let $F = $crate::universe::U1Mock::d; $body }
+            8 => { let $F = $crate::universe::U2Mock::r; $body }
             _ => panic!("bad method id"),
         }
     };
